@@ -311,8 +311,8 @@ class Sink:
         return ''.join(self.parts)
 
 
-def run_cli(text: str):
-    """Runs the REAL main program in process on a test-case file holding `text`."""
+def run_cli(text: str, options: Sequence[str] = ()):
+    """Runs the REAL main program in process on a test-case file holding `text` (command line: options + [FILE])."""
     import io
     from vsym import scratch
     from exactly_lib.cli import main_program
@@ -348,7 +348,7 @@ def run_cli(text: str):
     cwd = os.getcwd()
     exc = None
     try:
-        rc = mp.execute([path], StdOutputFiles(out, err))
+        rc = mp.execute(list(options) + [path], StdOutputFiles(out, err))
     except Exception as e:  # noqa
         rc, exc = None, e
     os.chdir(cwd)
